@@ -411,4 +411,237 @@ theorem step_up {m : LMap} (L : Loaded m) {A R : List Id} (inv : RowsInv m A R) 
         · exact Or.inl ⟨h1, fun e => h2 (e ▸ hdd)⟩
         · exact Or.inr h
 
+
+/-- the revisions `_unmerge_to_revisions` re-inserts are the prerequisites of `r` that no other
+applied revision needs -/
+theorem mem_unmergeTo {m : LMap} (L : Loaded m) {A R : List Id} (inv : RowsInv m A R) (r : Id) (hrR : r ∈ R) (x : Id) :
+    x ∈ unmergeToRevisions m R r ↔
+      x ∈ m.allDownOf r ∧ ∀ c ∈ A, c ≠ r → x ∉ m.allDownOf c := by
+  obtain ⟨rank, hrank⟩ := L.ranked
+  have hrA : r ∈ A := ((inv.rows r).mp hrR).1
+  have hparA : ∀ p ∈ m.allDownOf r, p ∈ A := fun p hp => inv.closed r hrA p hp
+  -- membership in the first filter
+  have hto1 : ∀ y, y ∈ (if !(R.filter (· != r)).isEmpty then (m.normDownOf r).filter (· ∉ m.ancestors (R.filter (· != r)))
+      else m.normDownOf r) ↔ y ∈ m.normDownOf r ∧ ¬ ∃ h ∈ R, h ≠ r ∧ Reach m.allDownOf h y := by
+    intro y
+    have hanc : y ∈ m.ancestors (R.filter (· != r)) ↔ ∃ h ∈ R, h ≠ r ∧ Reach m.allDownOf h y := by
+      rw [mem_ancestors_iff]
+      constructor
+      · rintro ⟨h, hh, hr⟩
+        have := List.mem_filter.mp hh
+        exact ⟨h, this.1, by simpa using this.2, (reach_norm_iff_all L h y).mp hr⟩
+      · rintro ⟨h, hh, hne, hr⟩
+        exact ⟨h, List.mem_filter.mpr ⟨hh, by simpa using hne⟩, (reach_norm_iff_all L h y).mpr hr⟩
+    split
+    · rw [List.mem_filter]; simp only [decide_eq_true_eq, hanc]
+    · rename_i hemp
+      have hnil : R.filter (· != r) = [] := by simpa using hemp
+      constructor
+      · intro hy
+        refine ⟨hy, ?_⟩
+        rintro ⟨h, hh, hne, _⟩
+        have : h ∈ R.filter (· != r) := List.mem_filter.mpr ⟨hh, by simpa using hne⟩
+        rw [hnil] at this; simp at this
+      · exact fun h => h.1
+  unfold unmergeToRevisions
+  simp only
+  rw [List.mem_filter]
+  simp only [List.mem_flatMap, List.mem_filter, decide_eq_true_eq, not_exists, not_and]
+  constructor
+  · rintro ⟨hx1, hx2⟩
+    have hx1' := (hto1 x).mp hx1
+    refine ⟨L.norm_sub_all r x hx1'.1, ?_⟩
+    intro c hcA hcr hxc
+    obtain ⟨h, hmax, hreach⟩ := exists_max_above L A c hcA
+    have hhR : h ∈ R := (inv.rows h).mpr hmax
+    by_cases hhr : h = r
+    · subst hhr
+      -- c lies strictly below r: below a normalized parent q of r
+      have hrc : Reach m.normDownOf h c := (reach_norm_iff_all L h c).mpr hreach
+      obtain ⟨q, hq, hqc⟩ := reach_proper (nd := m.normDownOf) h c hrc (Ne.symm hcr)
+      have hqc' : Reach m.allDownOf q c := (reach_norm_iff_all L q c).mp hqc
+      have hqx : Reach m.allDownOf q x := Reach.trans _ hqc' (Reach.single _ hxc)
+      have hqne : q ≠ x := by
+        intro e; subst e
+        have := reach_rank_le' hrank hqc'
+        have := hrank c q hxc; omega
+      by_cases hq1 : q ∈ (if !(R.filter (· != h)).isEmpty then (m.normDownOf h).filter (· ∉ m.ancestors (R.filter (· != h)))
+          else m.normDownOf h)
+      · have hmem : x ∈ m.ancestors [q] := by
+          rw [mem_ancestors_iff]
+          exact ⟨q, by simp, (reach_norm_iff_all L q x).mpr hqx⟩
+        exact hx2 q hq1 hmem (by simpa using (Ne.symm hqne))
+      · have : ∃ h' ∈ R, h' ≠ h ∧ Reach m.allDownOf h' q := by
+          apply Classical.byContradiction
+          intro hno; exact hq1 ((hto1 q).mpr ⟨hq, hno⟩)
+        obtain ⟨h', hh', hne', hr'⟩ := this
+        exact hx1'.2 ⟨h', hh', hne', Reach.trans _ hr' hqx⟩
+    · exact hx1'.2 ⟨h, hhR, hhr, Reach.trans _ hreach (Reach.single _ hxc)⟩
+  · rintro ⟨hxr, hS⟩
+    have hxn : x ∈ m.normDownOf r := by
+      apply Classical.byContradiction
+      intro hn
+      obtain ⟨a, hne, hra, hxa⟩ := L.norm_drop r x hxr hn
+      have hra' : Reach m.allDownOf r a :=
+        reach_mono (fun i q hq => L.norm_sub_all i q (L.down_sub_norm i q hq)) hra
+      exact hS a (closedA_reach inv.closed hrA hra') hne hxa
+    have hxnotrow : x ∉ R := fun hx => ((inv.rows x).mp hx).2 r hrA hxr
+    refine ⟨(hto1 x).mpr ⟨hxn, ?_⟩, ?_⟩
+    · rintro ⟨h, hh, hne, hreach⟩
+      have hhx : h ≠ x := fun e => hxnotrow (e ▸ hh)
+      obtain ⟨c, hhc, hxc⟩ := reach_last_edge hreach hhx
+      have hcA : c ∈ A := closedA_reach inv.closed ((inv.rows h).mp hh).1 hhc
+      have hcr : c ≠ r := by
+        intro e; subst e
+        exact row_not_below L inv hrR ((inv.rows h).mp hh).1 hne hhc
+      exact hS c hcA hcr hxc
+    · intro q hq1 hqanc hqx
+      -- x would be a proper ancestor of another re-inserted revision q
+      have hq1' := (hto1 q).mp hq1
+      obtain ⟨t, ht, hreach⟩ := (mem_ancestors_iff m [q] x).mp hqanc
+      simp at ht; subst ht
+      have hreach' : Reach m.allDownOf t x := (reach_norm_iff_all L t x).mp hreach
+      have hne : t ≠ x := by
+        have : x ≠ t := by simpa using hqx
+        exact Ne.symm this
+      obtain ⟨c, htc, hxc⟩ := reach_last_edge hreach' hne
+      have htA : t ∈ A := hparA t (L.norm_sub_all r t hq1'.1)
+      have hcA : c ∈ A := closedA_reach inv.closed htA htc
+      have hcr : c ≠ r := by
+        intro e; subst e
+        have h1 := reach_rank_le' hrank htc
+        have h2 := hrank c t (L.norm_sub_all c t hq1'.1); omega
+      exact hS c hcA hcr hxc
+
+
+theorem unmergeTo_nodup {m : LMap} (L : Loaded m) (R : List Id) (r : Id) : (unmergeToRevisions m R r).Nodup := by
+  unfold unmergeToRevisions
+  simp only
+  apply List.Pairwise.filter
+  split
+  · exact List.Pairwise.filter _ (L.normDown_nodup r)
+  · exact L.normDown_nodup r
+
+theorem unmergeTo_sub {m : LMap} (R : List Id) (r : Id) : ∀ x ∈ unmergeToRevisions m R r, x ∈ m.normDownOf r := by
+  intro x hx
+  unfold unmergeToRevisions at hx
+  simp only at hx
+  have h1 := (List.mem_filter.mp hx).1
+  split at h1
+  · exact (List.mem_filter.mp h1).1
+  · exact h1
+
+/-- **Downgrade step.** If the table is consistent with the applied set `A` and `r` is a row
+(no applied revision needs it), recording the downgrade of `r` succeeds and the table is
+consistent with `A` without `r`. -/
+theorem step_down {m : LMap} (L : Loaded m) {A R : List Id} (inv : RowsInv m A R) (r : Id) (hrR : r ∈ R) :
+    ∃ R' st, updateToStep m R (.rev r false) = .ok (R', st) ∧ RowsInv m (A.filter (· != r)) R' := by
+  obtain ⟨rank, hrank⟩ := L.ranked
+  have hrA : r ∈ A := ((inv.rows r).mp hrR).1
+  have hto := mem_unmergeTo L inv r hrR
+  have htoR : ∀ t ∈ unmergeToRevisions m R r, t ∉ R := by
+    intro t ht htR
+    exact ((inv.rows t).mp htR).2 r hrA ((hto t).mp ht).1
+  suffices h : ∃ R' st, updateToStep m R (.rev r false) = .ok (R', st) ∧
+      RowSet R' (fun x => (x ∈ R ∧ x ≠ r) ∨ x ∈ unmergeToRevisions m R r) by
+    obtain ⟨R', st, h1, hs⟩ := h
+    refine ⟨R', st, h1, hs.nodup, ?_, ?_⟩
+    · intro x
+      rw [hs.iff x]
+      constructor
+      · rintro (⟨hx, hne⟩ | hx)
+        · have hmax := (inv.rows x).mp hx
+          refine ⟨List.mem_filter.mpr ⟨hmax.1, by simpa using hne⟩, ?_⟩
+          intro c hc; exact hmax.2 c (List.mem_filter.mp hc).1
+        · have hx' := (hto x).mp hx
+          have hxA : x ∈ A := inv.closed r hrA x hx'.1
+          have hxr : x ≠ r := by
+            intro e; subst e; have := hrank _ _ hx'.1; omega
+          refine ⟨List.mem_filter.mpr ⟨hxA, by simpa using hxr⟩, ?_⟩
+          intro c hc
+          have hc' := List.mem_filter.mp hc
+          exact hx'.2 c hc'.1 (by simpa using hc'.2)
+      · rintro ⟨hxA', hmax⟩
+        have hxA := List.mem_filter.mp hxA'
+        have hxr : x ≠ r := by simpa using hxA.2
+        by_cases hchild : x ∈ m.allDownOf r
+        · right
+          refine (hto x).mpr ⟨hchild, ?_⟩
+          intro c hc hcr
+          exact hmax c (List.mem_filter.mpr ⟨hc, by simpa using hcr⟩)
+        · left
+          refine ⟨(inv.rows x).mpr ⟨hxA.1, ?_⟩, hxr⟩
+          intro c hc
+          by_cases hcr : c = r
+          · subst hcr; exact hchild
+          · exact hmax c (List.mem_filter.mpr ⟨hc, by simpa using hcr⟩)
+    · intro x hx p hp
+      have hx' := List.mem_filter.mp hx
+      refine List.mem_filter.mpr ⟨inv.closed x hx'.1 p hp, ?_⟩
+      have : p ≠ r := by
+        intro e; subst e
+        exact ((inv.rows p).mp hrR).2 x hx'.1 hp
+      simpa using this
+  have hrun : ∀ st R', stepStmts m R (.rev r false) = .ok st → applyStmts R st = .ok R' →
+      updateToStep m R (.rev r false) = .ok (R', st) := by
+    intro st R' h1 h2; unfold updateToStep; rw [h1]; simp only; rw [h2]
+  by_cases hA : (m.normDownOf r).isEmpty || (unmergeToRevisions m R r).isEmpty
+  · -- nothing to put back: DELETE
+    have hst : stepStmts m R (.rev r false) = .ok [.del r] := by
+      unfold stepStmts; simp only [hrR, decide_true, Bool.true_and, hA, if_true]
+    have htoNil : unmergeToRevisions m R r = [] := by
+      simp only [Bool.or_eq_true, List.isEmpty_iff] at hA
+      rcases hA with hA | hA
+      · apply List.eq_nil_iff_forall_not_mem.mpr
+        intro x hx; have := unmergeTo_sub R r x hx; rw [hA] at this; simp at this
+      · exact hA
+    obtain ⟨R', h1, hs⟩ := del_ok inv.nodup hrR
+    refine ⟨R', _, hrun _ _ hst h1, hs.nodup, ?_⟩
+    intro x; rw [hs.iff x, htoNil]; simp
+  · have hne : unmergeToRevisions m R r ≠ [] := by
+      simp only [Bool.or_eq_true, List.isEmpty_iff, not_or] at hA; exact hA.2
+    have hdne : m.normDownOf r ≠ [] := by
+      simp only [Bool.or_eq_true, List.isEmpty_iff, not_or] at hA; exact hA.1
+    by_cases hB : (m.normDownOf r).length > 1
+    · -- several down revisions: INSERT all but one, UPDATE r to the last
+      obtain ⟨R', hok, hs⟩ := unfold_ok R inv.nodup _ (unmergeTo_nodup L R r) hne htoR r hrR
+      have hst : stepStmts m R (.rev r false) =
+          .ok ((unmergeToRevisions m R r).dropLast.map .ins ++ [.upd r ((unmergeToRevisions m R r).getLast hne)]) := by
+        unfold stepStmts
+        simp only [hrR, decide_true, Bool.true_and, hA, hB, if_true, Bool.false_eq_true, if_false]
+        cases hrev : (unmergeToRevisions m R r).reverse with
+        | nil => simp at hrev; exact absurd hrev hne
+        | cons last initRev =>
+          obtain ⟨_, h1, h2⟩ := reverse_cons_split hrev
+          simp only [h1, h2]
+      exact ⟨R', _, hrun _ _ hst hok, hs⟩
+    · -- a single down revision: UPDATE r to it
+      have hlen : (m.normDownOf r).length = 1 := by
+        have : (m.normDownOf r).length ≠ 0 := fun e => hdne (List.length_eq_zero_iff.mp e)
+        omega
+      match hdn : m.normDownOf r, hlen with
+      | [d], _ =>
+        have hto1 : unmergeToRevisions m R r = [d] := by
+          have hsub := unmergeTo_sub (m := m) R r
+          rw [hdn] at hsub
+          have hnd := unmergeTo_nodup L R r
+          cases hu : unmergeToRevisions m R r with
+          | nil => exact absurd hu hne
+          | cons a rest =>
+            have ha : a = d := by simpa using hsub a (by rw [hu]; exact List.mem_cons_self)
+            subst ha
+            cases rest with
+            | nil => rfl
+            | cons b _ =>
+              have hb : b = a := by simpa using hsub b (by rw [hu]; simp)
+              rw [hu] at hnd; simp [hb] at hnd
+        have hst : stepStmts m R (.rev r false) = .ok [.upd r d] := by
+          unfold stepStmts
+          simp only [hrR, decide_true, Bool.true_and, hA, hB, Bool.false_eq_true, if_false]
+          simp [hdn]
+        have hdR : d ∉ R := htoR d (by rw [hto1]; exact List.mem_cons_self)
+        obtain ⟨R', hok, hs⟩ := upd_ok inv.nodup hrR hdR
+        refine ⟨R', _, hrun _ _ hst hok, hs.nodup, ?_⟩
+        intro x; rw [hs.iff x, hto1]; simp
+
 end Lemmas.Rev
